@@ -162,7 +162,9 @@ def replay(ck, g: Graph, path, norm):
                 n, p = ("f", "val"), 0
             else:                                           # MaxIter: any point whose entry is empty
                 stored = fdict(src["outs"])
-                p = next(q for q in (1, 2, 3) if not stored.get(q))
+                # preferably an entry that exists but is empty (seeded), else a point never stored
+                p = next((q for q in sorted(stored) if not stored[q]), None) or \
+                    next(q for q in (1, 2, 3) if q not in stored)
                 n = ("f", "val")
             script.append(("ask", n[0], n[1], COORD[p]))
         elif a == "OrigCall":
